@@ -239,10 +239,14 @@ func c36(r *simk.Run) *simk.Violation {
 	}
 	// alt (optional): the model if the operation interrupted by the crash became durable as a whole;
 	// after the reopen the storage must equal m or alt in every observed respect
+	ioErrAt := -1 // when >= 0: that write of the first incarnation fails with an I/O error instead
 	run := func(disk *Disk, crashBefore int, m *c36Model, start int, alt *c36Model) (*simk.Violation, int, bool) {
 		db := disk.Open()
 		if crashBefore >= 0 {
 			db.CrashBeforeWrite(crashBefore)
+		}
+		if ioErrAt >= 0 {
+			db.IOErrorAtWrite(ioErrAt)
 		}
 		limit := uint64(1 << 40)
 		ver := &stubVerifier{}
@@ -349,6 +353,22 @@ func c36(r *simk.Run) *simk.Violation {
 				if db.Dead() {
 					return nil, i, true
 				}
+				if db.Fired == "io-error" {
+					db.Fired = ""
+					s.FaultFired("write-error")
+					if op.Kind == "local" || op.Kind == "remote" {
+						// a refused add (the signature request is answered with an error, the node keeps running):
+						// the chunk must be held neither in memory nor on disk
+						if v := compare(st, fmt.Sprintf("after op %d (%s chunk %d) failed with a disk write error", i, op.Kind, op.Chunk)); v != nil {
+							v.Class += "-after-write-error"
+							return v, i, false
+						}
+						continue
+					}
+					// a failed minimum advance is fatal for the node (Accept fails): it restarts
+					db.Kill()
+					return nil, i, true
+				}
 				return &simk.Violation{Class: "C36/op-fails", Detail: fmt.Sprintf("op %d %v failed on a healthy database: %v", i, op, err)}, i, false
 			}
 		}
@@ -392,6 +412,28 @@ func c36(r *simk.Run) *simk.Violation {
 		}
 	}
 	s.Probes["crash_points_enumerated"] += W
+	// the same points as I/O errors: the write fails, the process lives on
+	for k := 0; k < W; k++ {
+		d := NewDisk()
+		mm := &c36Model{pending: map[int]bool{}, accepted: map[int]bool{}}
+		ioErrAt = k
+		v, at, crashed := run(d, -1, mm, 0, nil)
+		ioErrAt = -1
+		if v != nil {
+			v.Detail = fmt.Sprintf("[disk write %d fails] ", k) + v.Detail
+			return v
+		}
+		if !crashed {
+			continue
+		}
+		r.Fingerprint("ioerr@%d", k)
+		// restart after the fatal write error; the failed batch left nothing behind
+		if v, _, _ := run(d, -1, mm, at+1, nil); v != nil {
+			v.Class += "-after-write-error"
+			v.Detail = fmt.Sprintf("[disk write %d failed during op %d, restarted] ", k, at) + v.Detail
+			return v
+		}
+	}
 	return nil
 }
 
